@@ -48,8 +48,15 @@ type Impl struct {
 	// capabilities: methods that are implemented (others panic "unsupported")
 	HasBase, HasMulBase, HasPick, HasEmbed bool
 	// Gen returns a fresh generator (Base() where supported, e(g1,g2) for kilic GT)
-	Gen   func() kyber.Point
-	Slow  bool          // pairing target groups etc.: fewer cases
+	Gen  func() kyber.Point
+	Slow bool // pairing target groups etc.: fewer cases
+	// Prep switches an object to the implementation's opt-in code path (AllowVarTime(true));
+	// it is applied to every object the harness creates and re-applied to pool variables.
+	Prep func(kyber.Point)
+	// OracleOnly: no exact correspondence (non prime-order group / no transcription): oracles only
+	OracleOnly bool
+	// Alt marks alternative code paths of an implementation already listed (fewer random programs)
+	Alt   bool
 	Suite pairing.Suite // for pairing groups
 	Which int           // 1 G1, 2 G2, 3 GT for pairing groups
 }
@@ -62,7 +69,7 @@ func order(g kyber.Group) *big.Int {
 func mk(name string, g kyber.Group, pi, si int) *Impl {
 	im := &Impl{Name: name, G: g, PImpl: pi, SImpl: si, Q: order(g),
 		HasBase: true, HasMulBase: true, HasPick: true}
-	im.Gen = func() kyber.Point { return g.Point().Base() }
+	im.Gen = func() kyber.Point { return im.NewPoint().Base() }
 	return im
 }
 
@@ -72,6 +79,15 @@ func All() []*Impl {
 	ed := mk("edwards25519", edwards25519.NewBlakeSHA256Ed25519(), Ed25519Point, Ed25519Scalar)
 	ed.HasEmbed = true
 	out = append(out, ed)
+	// opt-in variable-time path of the same point type (geScalarMultVartime)
+	edv := mk("edwards25519.allowvartime", edwards25519.NewBlakeSHA256Ed25519(), Ed25519Point, Ed25519Scalar)
+	edv.HasEmbed, edv.Alt = true, true
+	edv.Prep = func(p kyber.Point) {
+		if v, ok := p.(kyber.AllowsVarTime); ok {
+			v.AllowVarTime(true)
+		}
+	}
+	out = append(out, edv)
 	pc := new(edwards25519vartime.ProjectiveCurve).Init(edwards25519vartime.ParamEd25519(), false)
 	vp := mk("edwards25519vartime.proj", pc, VtProj, ModInt)
 	vp.HasEmbed = true
@@ -80,12 +96,32 @@ func All() []*Impl {
 	ve := mk("edwards25519vartime.ext", ec, VtExt, ModInt)
 	ve.HasEmbed = true
 	out = append(out, ve)
+	// full-group curves (order 8l, not prime): oracles only (basic.go needs the `experimental` build tag)
+	for _, full := range []bool{true} {
+		fp := mk("edwards25519vartime.proj.full", new(edwards25519vartime.ProjectiveCurve).Init(edwards25519vartime.ParamEd25519(), full), VtProj, ModInt)
+		fp.HasEmbed, fp.OracleOnly, fp.Alt = true, true, true
+		fe := mk("edwards25519vartime.ext.full", new(edwards25519vartime.ExtendedCurve).InitCurve(edwards25519vartime.ParamEd25519(), full), VtExt, ModInt)
+		fe.HasEmbed, fe.OracleOnly, fe.Alt = true, true, true
+		out = append(out, fp, fe)
+	}
 	pp := mk("p256", p256.NewBlakeSHA256P256(), P256Point, ModInt)
 	pp.HasEmbed = true
 	out = append(out, pp)
 	rs := mk("p256.residue", p256.NewBlakeSHA256QR512(), Residue, ModInt)
 	rs.HasEmbed = true
 	out = append(out, rs)
+
+	// a residue group configured by the caller through SetParams, with parameter big.Ints that have
+	// spare limb capacity (as results of arithmetic have) and another generator
+	{
+		qr := p256.NewBlakeSHA256QR512()
+		grow := func(x *big.Int) *big.Int { z := new(big.Int).Lsh(x, 640); return z.Rsh(z, 640) }
+		g := new(p256.ResidueGroup)
+		g.SetParams(grow(qr.P), grow(qr.Q), grow(qr.R), grow(big.NewInt(9)))
+		sp := mk("p256.residue.setparams", g, Residue, ModInt)
+		sp.HasEmbed, sp.Alt = true, true
+		out = append(out, sp)
+	}
 
 	addPairing := func(name string, s pairing.Suite, g12, gt, sc int, gtBase, gtPick, gtMulBase bool, g1Embed bool) {
 		g1 := mk(name+".G1", s.G1(), g12, sc)
@@ -104,9 +140,25 @@ func All() []*Impl {
 	addPairing("bn256", bn256.NewSuite(), BnCurve, BnGT, ModInt, true, true, true, true)
 	addPairing("bn254", bn254.NewSuite(), BnCurve, BnGT, ModInt, true, true, true, false)
 	addPairing("bls12381.kilic", kilic.NewBLS12381Suite(), KilicG, KilicGT, ModInt, false, false, false, false)
+	// kilic groups with caller-supplied domain separation tags (dst is part of the point)
+	kd := kilic.NewBLS12381SuiteWithDST([]byte("VERIF-DST-G1"), []byte("VERIF-DST-G2"))
+	kd1 := mk("bls12381.kilic.dst.G1", kd.G1(), KilicG, ModInt)
+	kd1.Alt = true
+	kd2 := mk("bls12381.kilic.dst.G2", kd.G2(), KilicG, ModInt)
+	kd2.Alt, kd2.Slow = true, true
+	out = append(out, kd1, kd2)
 	addPairing("bls12381.circl", circl.NewSuite(), CirclG, CirclGT, CirclScalar, true, false, false, false)
 	addPairing("bls12381.gnark", gnark.NewSuite(), GnarkG, GnarkGT, GnarkScalar, true, false, false, false)
 	return out
+}
+
+// NewPoint is G.Point() on the implementation's code path under test.
+func (im *Impl) NewPoint() kyber.Point {
+	p := im.G.Point()
+	if im.Prep != nil {
+		im.Prep(p)
+	}
+	return p
 }
 
 // ScalarVal is the integer value of a scalar (through its encoding).
@@ -151,7 +203,7 @@ func Enc(p kyber.Point) string {
 
 // FreshPoint decodes an encoding into a new object (independent of Clone/Set).
 func (im *Impl) FreshPoint(enc string) kyber.Point {
-	p := im.G.Point()
+	p := im.NewPoint()
 	if err := p.UnmarshalBinary([]byte(enc)); err != nil {
 		panic("hg: cannot decode own encoding in " + im.Name + ": " + err.Error())
 	}
